@@ -34,6 +34,7 @@ type KnownFinding struct {
 	Except     string `json:"except"`
 	What       string `json:"what"`
 	Witness    string `json:"witness"`
+	WitnessDir string `json:"witness_dir"`
 }
 
 type KFFile struct {
@@ -232,6 +233,9 @@ func checkCmd(args []string) {
 	os.MkdirAll(smtDir, 0o755)
 	res := runProperty(*prop, pc, *repo, nil, kf.Findings, timeout, cross, seed, smtDir)
 	code := report(*prop, pc, res, *tier, seed, *verbose, time.Since(t0), !*noEvidence, nil)
+	if *tier == "thorough" {
+		runWitnesses(*prop, kf)
+	}
 	if *tier == "thorough" && code == 0 {
 		code = selftest(*prop, pc, kf, seed)
 	}
